@@ -5,6 +5,7 @@ pub mod c05;
 pub mod c06;
 pub mod c07;
 pub mod c12;
+pub mod c15;
 pub mod c16;
 pub mod c19;
 pub mod c20;
@@ -25,5 +26,6 @@ pub fn all() -> Vec<Entry> {
         Entry { scn: &c07::C07Prometheus, quick_runs: 12_000, thorough_runs: 1_000_000 },
         Entry { scn: &c12::C12Recency, quick_runs: 60_000, thorough_runs: 3_000_000 },
         Entry { scn: &c12::C12PromIdle, quick_runs: 30_000, thorough_runs: 2_000_000 },
+        Entry { scn: &c15::C15Windows, quick_runs: 40_000, thorough_runs: 3_000_000 },
     ]
 }
